@@ -15,7 +15,7 @@ const ruleC12 = "C01 paths with functions after every step kind and inside filte
 	"Non-trivial: the path has a function or filter and returns >=1 result. Distinct = distinct (path, document, mode)."
 
 func drawC12(rt *rapid.T) *Case {
-	g := gen.NewG(rt, gen.PathOpts{Funcs: true, RootOmit: true, FuncPct: 50, OperandFuncPct: 35})
+	g := gen.NewG(rt, gen.PathOpts{Funcs: true, RootOmit: true, FuncPct: 50, OperandFuncPct: 35, LongPaths: true})
 	p := g.Path()
 	r := gen.Render(p, gen.Canon)
 	return &Case{Path: r.Text, AST: p, Texts: r.Steps, Doc: g.Doc(p), UseNumber: rapid.Bool().Draw(rt, "usenumber"), Funcs: true}
